@@ -19,7 +19,7 @@ each followed by ` => <observation>`:
     | calls=<comma list> | sec=<new>:<closed>:<live>:<multi-closed>:<access-after-close> | dirty=<n> | rows=<n>
 Creation stamps are printed relative to the virtual epoch 1700000000 s.
 The driver replays the operations on the model, compares field by field
-(`MISMATCH line N field=<res|calls|sec|dirty|rows> …`) and runs the per-property monitors of
+(`MISMATCH line N field=<res|calls|sec|dirty|rows|log> …`) and runs the per-property monitors of
 Spec/EnvelopeMon.lean on the implementation's own observations (`MONITOR-FAIL line N prop=Cxx …`).
 -/
 namespace AsherahVerif.Driver.EnvEngine
@@ -124,7 +124,7 @@ def chainPresent (w : World) (d : Drr) : Nat :=
 /-- after the observation of an operation has been taken, the dirty buffers are forgotten
 (the harness re-reads only the slices of the operation that just returned). -/
 def tail (w : World) : String × World :=
-  (s!" | calls={",".intercalate (w.log.map showCall)} | {secLine w} | dirty={dirtyBufs w} | rows={w.store.length}",
+  (s!" | calls={",".intercalate (w.log.map showCall)} | {secLine w} | dirty={dirtyBufs w} | rows={w.store.length} | log=clean",
    { w with bufs := [] })
 
 def mutate (drrs : Array (Drr × Nat × Nat)) (d : Drr) (mutS : String) : Drr :=
